@@ -99,7 +99,7 @@ def run(ctx):
         if r_['what'] == 'attack':
             a = r_['a']
             ctx.violation('%s|%s|pos=%s|prot=%s|transport=%s|framing=%s%s' % ('+'.join(sorted(cl)), a['kind'], a['pos'], a['prot'], a['transport'], a['framing'],
-                                                                              '' if a.get('validator', 'none') == 'none' else '|validator=' + a['validator']),
+                                                                              ('' if a.get('validator', 'none') == 'none' else '|validator=' + a['validator']) + ('' if a.get('opts', 'none') == 'none' else '|opts=' + a['opts'])),
                           '%s: attack %s: %s' % (sorted(cl), a, json.dumps(r_['info'])[:600]), {'attack': a, 'observation': r_['obs'], 'info': r_['info']})
         else:
             s = r_['s']
